@@ -317,43 +317,21 @@ def sh(f):
     return f.extra.get("shape", {})
 
 
+# Only defects still open on the tree with all approved fixes.  The repaired classes (F13-empty-section,
+# F13-select-multiple-ref, F20, F26, F27, F31, F32, F33, F34-entities-no-dataset, F39-F43) have no matcher any more:
+# their directed reproductions stay in stream D, so a regression comes back as a VIOLATION.
 MATCHERS = {
-    "F13-empty-section": lambda f: crash(f, {"TypeError"}, r"^section\.py:validate$") and sh(f).get("empty_section"),
-    "F13-select-multiple-ref": lambda f: crash(f, {"KeyError"}, r"^xls2json\.py:workbook_to_json$")
-    and sh(f).get("select_multiple_ref") and "${" in f.extra.get("msg", ""),
     "F13-select-one-external-unlisted": lambda f: crash(f, {"KeyError"}, r"^xls2json\.py:add_choices_info_to_question$")
     and sh(f).get("select_external_unlisted"),
     "F14-header-shape": lambda f: f.kind == "internal-exception" and bool(sh(f).get("odd_headers"))
     and TYPE_CONFUSION.search(f.extra.get("msg", "")) is not None,
-    "F20-clean-text-off-choice-row": lambda f: crash(f, {"KeyError"}, r"^choices\.py:validate_choice_list$")
-    and sh(f).get("ctv_off") and "__row" in f.extra.get("msg", ""),
     "F22-settings-internal-slot": lambda f: f.kind == "internal-exception" and bool(sh(f).get("odd_settings"))
     and TYPE_CONFUSION.search(f.extra.get("msg", "")) is not None,
-    "F26-extra-sheet": lambda f: crash(f, {"TypeError"}, r"^xls2json_backends\.py:") and "unexpected keyword" in f.extra.get("msg", "")
-    and f.extra.get("via") in ("dict_raw", "csv_raw"),
-    "F27-md-ragged": lambda f: crash(f, {"IndexError"}, r"^xls2json_backends\.py:(list_to_dicts|process_md_data|md_to_dict)")
-    and f.extra.get("via") == "md_raw",
     "F30-deep-nesting": lambda f: f.kind == "internal-exception" and f.extra.get("exc") == "RecursionError"
     and sh(f).get("depth", 0) > 100,
-    "F31-or-other-unlabeled": lambda f: crash(f, {"KeyError"}, r"^xls2json\.py:workbook_to_json$")
-    and sh(f).get("or_other_unlabeled") and "'label'" in f.extra.get("msg", ""),
-    "F32-external-in-repeat": lambda f: crash(f, {"AttributeError"}, r"^section\.py:(generate_repeating_template|xml_instance_array)$")
-    and sh(f).get("external_in_repeat") and "ExternalInstance" in f.extra.get("msg", ""),
-    "F33-search-on-ref-select": lambda f: crash(f, {"AttributeError"}, r"^survey\.py:_redirect_is_search_itext$")
-    and sh(f).get("search_on_ref_select"),
-    "F40-search-unlabeled-choice": lambda f: crash(f, {"TypeError"}, r"^utils\.py:<genexpr>$")
-    and "insert_output_values" in " ".join(f.extra.get("sites", [])) and sh(f).get("search_unlabeled_choice"),
-    "F34-entities-no-dataset": lambda f: crash(f, {"KeyError"}, r"^entities_parsing\.py:get_validated_dataset_name$")
-    and sh(f).get("entities_no_dataset"),
     "F34-survey-internal-column": lambda f: f.kind == "internal-exception" and bool(sh(f).get("internal_cols"))
-    and crash(f, {"KeyError", "AttributeError", "TypeError"}, r"^(builder|survey_element|section|question|survey|utils)\.py:|^xls2json\.py:add_flat_annotations$"),
-    "F41-blank-cell-before-grouped-column": lambda f: f.kind == "internal-exception" and sh(f).get("blank_before_grouped")
-    and f.extra.get("exc") in ("AttributeError", "TypeError") and "NoneType" in f.extra.get("msg", ""),
-    "F42-default-language-column-twice": lambda f: sh(f).get("default_lang_twice")
-    and (crash(f, {"TypeError"}, r"^survey\.py:insert_output_values$") or crash(f, {"KeyError"}, r"^survey\.py:itext$")),
-    "F43-reference-to-root": lambda f: crash(f, {"IndexError"}, r"^survey\.py:_relative_path$") and sh(f).get("ref_to_root"),
-    "F39-empty-reference": lambda f: f.kind in ("not-located", "accepted-broken")
-    and f.extra.get("mutation") in ("malformed_ref", "malformed_ref_choice") and "${}" in str(f.extra.get("site")),
+    and crash(f, {"KeyError", "AttributeError", "TypeError"},
+              r"^(builder|survey_element|section|question|survey|utils)\.py:|^xls2json\.py:add_flat_annotations$"),
 }
 
 # ------------------------------------------------------------------------------- running one case
@@ -461,6 +439,23 @@ def check_no_internal(ctx, case, r):
     return False
 
 
+def model_call17(ctx, form, root="data"):
+    """the row model with the repaired validation order (driver op `c17.model`, Pyxv.Rows17.formOut17)"""
+    rows = [formobs.canon_cells(x) for x in form["survey"]]
+    lists = sorted({x.get("list_name", x.get("list name", "")) for x in form.get("choices", [])})
+    settings = formobs.canon_cells(form["settings"][0]) if form.get("settings") else []
+    for k, v in settings:
+        if k == "name":
+            root = v
+    return ctx.driver.call("c17.model", rows=rows, lists=lists, settings=settings, root=root)
+
+
+def err_matches17(model_err, msg):
+    if model_err["kind"] == "emptySection":
+        return "has no questions or groups" in msg and f"'{model_err['name']}'" in msg
+    return formcommon.err_matches(model_err, msg)
+
+
 def catalogue_case(ctx, case):
     """one mutated form: implementation, oracle, model correspondence"""
     form, expect = case["form"], case["expect"]
@@ -477,7 +472,7 @@ def catalogue_case(ctx, case):
         if not ok:
             ctx.fail(Failure("not-located", f"mutation {mid} at {case['site']}: message {why}: {r['msg'][:200]!r}", case, extra=extra))
     if expect.get("model") and case.get("via", "dict") == "dict":
-        m = formcommon.model_call(ctx, form)
+        m = model_call17(ctx, form)
         ctx.count(f"A:model:{m['outcome']}")
         if m["outcome"] == "unsupported":
             return
@@ -486,7 +481,7 @@ def catalogue_case(ctx, case):
                 ctx.mismatch(f"{mid}: implementation rejects, model accepts", case, r["msg"][:300], "ok")
         elif r["class"] == "ok":
             ctx.mismatch(f"{mid}: model rejects, implementation accepts", case, "ok", m["err"])
-        elif not formcommon.err_matches(m["err"], r["msg"]):
+        elif not err_matches17(m["err"], r["msg"]):
             ctx.mismatch(f"{mid}: model and implementation locate different errors", case, r["msg"][:300], m["err"])
         elif "row" in expect and m["err"].get("row") not in (None, expect["row"]):
             ctx.mismatch(f"{mid}: model cites another row than the catalogue", case, expect["row"], m["err"])
@@ -513,7 +508,7 @@ def fuzz_case(ctx, case, correspond=False):
         if all(SAFE_HEADER.match(h) for h in hs) and all(set(c) <= {"list_name", "name", "label", "label::en", "label::fr"} for c in form.get("choices") or []):
             st = settings_of(form)
             if set(st) <= {"form_title", "form_id", "version", "default_language"}:
-                m = formcommon.model_call(ctx, cleaned(form))
+                m = model_call17(ctx, cleaned(form))
                 ctx.count(f"B:model:{m['outcome']}")
                 if m["outcome"] == "error":
                     ctx.mismatch("fuzz: model rejects, implementation accepts", case, "ok", m["err"])
